@@ -145,9 +145,8 @@ Lemma error_bounds_asis_pos : forall B md p sig ex l r il ir, 0 < B ->
   error_bounds_asis B md p sig ex = Ok (l, r, il, ir) -> 0 < snd l /\ 0 < snd r.
 Proof.
   intros B md p sig ex l r il ir HB H. unfold error_bounds_asis in H.
-  pose proof (scaled_pos B 1 (ex + ndigits B (Z.abs sig) - p) 1 HB ltac:(lia)) as Hu.
-  pose proof (scaled_pos B ((B + 1) / 2) (ex + ndigits B (Z.abs sig) - p - 1) 1 HB ltac:(lia)) as Hh.
-  destruct md, (p =? 0), (sig <? 0); inversion H; subst; cbn [snd]; split; try assumption; lia.
+  pose proof (fun N e => scaled_pos B N e 1 HB ltac:(lia)) as Hsc.
+  destruct md, (p =? 0), (sig <? 0); inversion H; subst; cbn [snd]; split; try apply Hsc; lia.
 Qed.
 
 Theorem simplest_from_float_asis_closed : forall B md p sig0 ex0, 0 < B ->
